@@ -44,7 +44,8 @@ pub struct Params {
     /// extra level explored with 1-cuts and byte-by-byte only
     pub extra_level: bool,
     pub two_cut_limit: usize,
-    pub three_cuts: bool,
+    /// every 3-cut for streams up to this length (0 = none)
+    pub three_cut_limit: usize,
     pub corrupt_seq: usize,
     pub trunc_seq: usize,
     pub recover_seq_narrow: usize,
@@ -616,6 +617,26 @@ fn show<M>(variant: fn(&M) -> (String, String), m: &M) -> String {
     }
 }
 
+/// `vcommon::cuts::chunkings` with an independent bound for the 3-cuts. Order: no cut, 1-cuts,
+/// 2-cuts, 3-cuts, byte-by-byte (smallest first).
+pub fn my_chunkings(n: usize, max_cuts: usize, two_limit: usize, three_limit: usize) -> Vec<Vec<usize>> {
+    let mut out = chunkings(n, max_cuts.min(2), two_limit);
+    if max_cuts >= 3 && n <= three_limit && n >= 4 {
+        let last = out.pop();
+        for i in 1..n {
+            for j in (i + 1)..n {
+                for k in (j + 1)..n {
+                    out.push(vec![i, j, k]);
+                }
+            }
+        }
+        if let Some(l) = last {
+            out.push(l);
+        }
+    }
+    out
+}
+
 fn all_seqs(n: usize, len: usize) -> Vec<Vec<usize>> {
     let mut out: Vec<Vec<usize>> = vec![vec![]];
     for _ in 0..len {
@@ -686,7 +707,7 @@ where
     let mut capped = false;
     for len in 1..=levels {
         let seqs: Vec<Vec<usize>> = all_seqs(n, len);
-        let max_cuts = if len > base { 1 } else if p.three_cuts { 3 } else { 2 };
+        let max_cuts = if len > base { 1 } else if p.three_cut_limit > 0 { 3 } else { 2 };
         let res = vcommon::par_map(&seqs, p.threads, |_, seq| {
             let mut s = Stats::default();
             if contains_sub(seq, &failing) {
@@ -711,7 +732,7 @@ where
             if data.len() <= p.two_cut_limit && max_cuts >= 2 {
                 s.two_cut_streams = 1;
             }
-            for cuts in chunkings(data.len(), max_cuts, p.two_cut_limit) {
+            for cuts in my_chunkings(data.len(), max_cuts, p.two_cut_limit, p.three_cut_limit) {
                 let mut dec = (e.new_dec)();
                 let t = drive(&mut dec, e.convert, &data, &cuts, 1);
                 s.cases += 1;
@@ -744,7 +765,7 @@ where
             let msgs: Vec<M> = seq.iter().map(|i| e.pool[*i].clone()).collect();
             if let Ok((data, bounds)) = encode_checked(&e.encode, &msgs) {
                 sample = Some(json!({"codec": e.name, "messages": msgs.iter().map(|m| show(e.variant, m)).collect::<Vec<_>>(),
-                    "stream_hex": hex(&data), "frame_bounds": bounds, "chunkings": chunkings(data.len(), max_cuts, p.two_cut_limit).len()}));
+                    "stream_hex": hex(&data), "frame_bounds": bounds, "chunkings": my_chunkings(data.len(), max_cuts, p.two_cut_limit, p.three_cut_limit).len()}));
             }
         }
     }
